@@ -4,4 +4,5 @@
 EXTENDS LazyPool
 NTopDef    == (1 :> 0) @@ (2 :> 1) @@ (3 :> 3)
 NNestedDef == (1 :> 0) @@ (2 :> 2) @@ (3 :> 3)
+NoLimit    == -1      \* (a configuration file cannot hold a negative literal)
 =============================================================================
